@@ -19,8 +19,9 @@ RULES = {
              "the size returned by a verified read - a callee all of whose success returns are dominated by the equal-edge of a comparison with checksum64 of the payload. An entry "
              "whose header alone was inspected may be the torn remainder of an append that was never acknowledged; counting it puts garbage between the acknowledged entries and "
              "everything appended after the restart",
-    "C07.4": "recovery visits every unit that may hold acknowledged entries (= C06.5): the per-file unit loop advances by exactly one unit or by a recognised round-up of the recovered "
-             "block's used bytes to whole units",
+    "C07.4": "recovery visits every unit that may hold acknowledged entries and attributes them to the right block (= C06.2, C06.3, C06.5): the per-file unit loop is left only by its "
+             "condition, advances by exactly one unit or by a recognised round-up of the recovered block's used bytes to whole units, and the entry scan of one unit stops strictly "
+             "before the next unit begins",
 }
 
 OPEN_ERR_SOURCES = {
@@ -377,8 +378,10 @@ def run(ctx):
     check_chain(ctx, facts)
     check_batch(ctx, facts)
     check_recovery_verifies(ctx, facts)
-    from .c06 import check_scan_stride
+    from .c06 import check_scan_stride, check_scan, check_entry_scan_bound
     check_scan_stride(ctx, facts, rid="C07.4")
+    check_scan(ctx, facts, rid="C07.4")
+    check_entry_scan_bound(ctx, facts, rid="C07.4")
     check_open_errors(ctx, facts)
     ctx.assume("crash model of the property: completed write syscalls persist across a process crash; what recovery reconstructs from the bytes is covered only by the layout/scan clauses of C06")
     ctx.assume("the discarded result of the positional write in FdBackend::write is reported under C04.4 (known finding), not repeated here")
